@@ -87,8 +87,8 @@ type c20capsule struct{ n int }
 // c20d1scenarios: scripted histories for the entry points added to the heap model in this round
 // (diffed against Lean like every history, and judged by (S)).
 func c20d1scenarios(ctx *Ctx) {
-	// C20.pathSetAddAllSteps_counterexample: the members AddAllSteps files share the caller's array
-	s := newScen(ctx, "AddAllSteps: append to a listed member overwrites a longer member")
+	// REGRESSION for /repo 776b476 (C20.pathSetAddAllSteps_append_safe): the members AddAllSteps files share the caller's array but have no spare capacity
+	s := newScen(ctx, "AddAllSteps: append to a listed member must not overwrite a longer member")
 	p0 := s.g(&c20Op{name: "nilPath"})
 	pa := s.g(&c20Op{name: "pathGetAttr", a: p0, s: "a"})
 	pab := s.g(&c20Op{name: "pathGetAttr", a: pa, s: "b"})
